@@ -12,6 +12,11 @@ func init() {
 		{Kind: "strings", File: cc, Func: "ParseCacheControlResponse", Name: "headerStrings"},
 		{Kind: "calls", File: "v2/pkg/caching/cachecontrol.go", Func: "TTL", Name: "ttlSkeleton",
 			Match: []string{"if", "return", "cache.ParseCacheControlResponse", "cc.SMaxAge.AsDuration", "cc.MaxAge.AsDuration"}},
+		// engine side (model: Cache.RespCache): which entities are collected under which key, the all-or-nothing lookup
+		{Kind: "guards", File: "v2/pkg/engine/resolve/response_cache.go", Func: "Loader.responseCacheCollect", Name: "collectGuards"},
+		{Kind: "guards", File: "v2/pkg/engine/resolve/response_cache.go", Func: "Loader.responseCacheLookup", Name: "lookupGuards"},
+		{Kind: "calls", File: "v2/pkg/engine/resolve/response_cache.go", Func: "Loader.responseCacheFlush", Name: "flushSkeleton",
+			Match: []string{"if", "return", "l.ctx.responseCache.store.SetMany", "l.reportResponseCacheError"}},
 	}
 
 	const lx = "v2/pkg/lexer/lexer.go"
